@@ -2,6 +2,7 @@ package main
 
 import (
 	"fmt"
+	"go/constant"
 	"go/token"
 	"go/types"
 	"strings"
@@ -252,6 +253,188 @@ func checkC10(w *World, c *Check, tier string) {
 	} else {
 		c.bad("C10.block", "block-guard", w.FuncPos(act), "Activity.Recipients no longer compares the activity type with BlockType")
 	}
+	checkBlockRemovalTest(w, c, rmCall.Common().StaticCallee())
+}
+
+// checkBlockRemovalTest: inside the functions that take the blocked items out of the addressing lists
+//   - (removal-by-id) the test that selects an entry for removal is the id comparison — IRI.Equals between the ids/links
+//     of the list entry and of the blocked item. "Addressed nowhere afterwards" is about identity: a structural equality
+//     (ItemsEqual / an Equals method of the items) is stricter than identity, so the blocked actor survives wherever it is
+//     embedded in a different form (a stub with only id and type, a copy with another name);
+//   - (nil-entries) every method call on a list entry or on a blocked item is under a test that the value is not nil:
+//     nil entries are to be left alone, and calling GetID on a nil interface faults.
+func checkBlockRemovalTest(w *World, c *Check, root *ssa.Function) {
+	if root == nil {
+		return
+	}
+	iriEq := w.Method("IRI", "Equals")
+	var fns []*ssa.Function
+	for _, f := range w.Reach([]*ssa.Function{root}, func(g *ssa.Function) bool { return !w.InPkg(g) }) {
+		// the functions that walk a list of items: an ItemCollection among the parameters
+		for _, p := range f.Params {
+			if isItemCollectionType(w, p.Type()) {
+				fns = append(fns, f)
+				break
+			}
+		}
+	}
+	if len(fns) == 0 {
+		c.bad("C10.block", "removal-by-id", w.FuncPos(root), "cannot find the function that walks an addressing list below "+funcName(root)+" (undecided)")
+		return
+	}
+	idTests, structTests := 0, []string{}
+	for _, f := range fns {
+		for _, b := range f.Blocks {
+			iff, ok := b.Instrs[len(b.Instrs)-1].(*ssa.If)
+			if !ok {
+				continue
+			}
+			for _, d := range disjuncts(iff.Cond, 0) {
+				if n, isNot := d.(*ssa.UnOp); isNot && n.Op == token.NOT {
+					d = n.X
+				}
+				call, isCall := d.(*ssa.Call)
+				if !isCall {
+					continue
+				}
+				cal := call.Common().StaticCallee()
+				switch {
+				case cal != nil && cal == iriEq:
+					idTests++
+				case cal != nil && cal.Name() == "ItemsEqual", cal != nil && cal.Name() == "Equals" && cal != iriEq,
+					call.Common().IsInvoke() && call.Common().Method.Name() == "Equals":
+					structTests = append(structTests, funcName(f)+" at "+w.InstrPos(call))
+				}
+			}
+		}
+	}
+	switch {
+	case len(structTests) > 0:
+		c.bad("C10.block", "removal-by-id", w.FuncPos(fns[0]), fmt.Sprintf("the entry to remove is selected by a structural equality (%s), not by comparing ids: a blocked actor that is embedded in the addressing in another form than in the Block's object (a stub, a copy with different properties) is not recognised and stays addressed", strings.Join(structTests, ", ")))
+	case idTests == 0:
+		c.bad("C10.block", "removal-by-id", w.FuncPos(fns[0]), "no id comparison (IRI.Equals) selects the entries to remove")
+	default:
+		c.ok("C10.block", "removal-by-id", w.FuncPos(fns[0]), fmt.Sprintf("%d id comparison(s), no structural equality", idTests))
+	}
+	// nil entries
+	var unguarded []string
+	ninv := 0
+	for _, f := range fns {
+		for _, b := range f.Blocks {
+			for _, in := range b.Instrs {
+				call, ok := in.(*ssa.Call)
+				if !ok || !call.Common().IsInvoke() {
+					continue
+				}
+				recv := call.Common().Value
+				if !isListElementOrVariadic(recv) {
+					continue
+				}
+				ninv++
+				if !guardedNotNilLike(recv, b) {
+					unguarded = append(unguarded, fmt.Sprintf("%s.%s() at %s", shortVal(recv), call.Common().Method.Name(), w.InstrPos(call)))
+				}
+			}
+		}
+	}
+	if len(unguarded) > 0 {
+		c.bad("C10.block", "nil-entries", w.FuncPos(fns[0]), fmt.Sprintf("a method is called on a list entry / blocked item that no test has found non-nil (%s): a nil entry in to/cc/bto/bcc/audience of a Block activity makes Recipients() fault instead of leaving the entry alone", strings.Join(unguarded, ", ")))
+	} else {
+		c.ok("C10.block", "nil-entries", w.FuncPos(fns[0]), fmt.Sprintf("%d method calls on entries, each under a not-nil test", ninv))
+	}
+}
+
+// disjuncts: the conditions c1, c2, … such that cond == c1 || c2 || … (go/ssa lowers || to a phi whose constant-true
+// edges come from the blocks that tested the earlier operands).
+func disjuncts(cond ssa.Value, depth int) []ssa.Value {
+	phi, ok := cond.(*ssa.Phi)
+	if !ok || depth > 6 {
+		return []ssa.Value{cond}
+	}
+	var out []ssa.Value
+	for i, e := range phi.Edges {
+		p := phi.Block().Preds[i]
+		if k, isConst := e.(*ssa.Const); isConst && k.Value != nil && k.Value.Kind() == constant.Bool {
+			if constant.BoolVal(k.Value) {
+				if iff, ok := p.Instrs[len(p.Instrs)-1].(*ssa.If); ok && p.Succs[0] == phi.Block() {
+					out = append(out, disjuncts(iff.Cond, depth+1)...)
+					continue
+				}
+				return []ssa.Value{cond}
+			}
+			continue
+		}
+		out = append(out, disjuncts(e, depth+1)...)
+	}
+	if len(out) == 0 {
+		return []ssa.Value{cond}
+	}
+	return out
+}
+
+// isListElementOrVariadic: v is an element loaded from a slice (range variable) — entries of a list of items.
+func isListElementOrVariadic(v ssa.Value) bool {
+	v = unwrap(v)
+	ld, ok := v.(*ssa.UnOp)
+	if !ok || ld.Op != token.MUL {
+		return false
+	}
+	_, isIA := ld.X.(*ssa.IndexAddr)
+	return isIA
+}
+
+// guardedNotNilLike: block b is only reached when v was found not nil: the false side of IsNil(v) (alone or in a
+// disjunction), the true side of v != nil, or the false side of v == nil.
+func guardedNotNilLike(v ssa.Value, b *ssa.BasicBlock) bool {
+	same := func(a ssa.Value) bool {
+		a, vv := unwrap(a), unwrap(v)
+		if a == vv {
+			return true
+		}
+		la, ok1 := a.(*ssa.UnOp)
+		lv, ok2 := vv.(*ssa.UnOp)
+		return ok1 && ok2 && la.Op == token.MUL && lv.Op == token.MUL && la.X == lv.X
+	}
+	for d := b; d != nil; d = d.Idom() {
+		id := d.Idom()
+		if id == nil {
+			break
+		}
+		iff, ok := id.Instrs[len(id.Instrs)-1].(*ssa.If)
+		if !ok {
+			continue
+		}
+		side := -1
+		for si, s := range id.Succs {
+			if len(s.Preds) == 1 && (s == b || s.Dominates(b)) {
+				side = si
+			}
+		}
+		if side < 0 {
+			continue
+		}
+		cond := iff.Cond
+		onTrue := side == 0
+		if n, isNot := cond.(*ssa.UnOp); isNot && n.Op == token.NOT {
+			cond, onTrue = n.X, !onTrue
+		}
+		if !onTrue {
+			// every disjunct is false here
+			for _, dj := range disjuncts(cond, 0) {
+				if call, isCall := dj.(*ssa.Call); isCall {
+					if cal := call.Common().StaticCallee(); cal != nil && cal.Name() == "IsNil" && len(call.Common().Args) == 1 && same(call.Common().Args[0]) {
+						return true
+					}
+				}
+				if bo, isBo := dj.(*ssa.BinOp); isBo && bo.Op == token.EQL && ((isNilConst(bo.Y) && same(bo.X)) || (isNilConst(bo.X) && same(bo.Y))) {
+					return true
+				}
+			}
+		} else if bo, isBo := cond.(*ssa.BinOp); isBo && bo.Op == token.NEQ && ((isNilConst(bo.Y) && same(bo.X)) || (isNilConst(bo.X) && same(bo.Y))) {
+			return true
+		}
+	}
+	return false
 }
 
 func instrIndex(in ssa.Instruction) int {
